@@ -147,13 +147,28 @@ impl HttpProtocol {
     }
 }
 
-impl From<::http::Version> for HttpProtocol {
-    fn from(version: ::http::Version) -> Self {
+impl HttpProtocol {
+    /// The protocol used to carry a request with the given HTTP version, if there is one.
+    ///
+    /// HTTP/0.9, HTTP/1.0 and HTTP/1.1 requests are sent over HTTP/1.1 connections,
+    /// HTTP/2 requests over HTTP/2 connections. Other versions (HTTP/3) are not supported.
+    pub fn from_version(version: ::http::Version) -> Option<Self> {
         match version {
-            ::http::Version::HTTP_11 | ::http::Version::HTTP_10 => Self::Http1,
-            ::http::Version::HTTP_2 => Self::Http2,
-            _ => panic!("Unsupported HTTP protocol"),
+            ::http::Version::HTTP_09 | ::http::Version::HTTP_10 | ::http::Version::HTTP_11 => {
+                Some(Self::Http1)
+            }
+            ::http::Version::HTTP_2 => Some(Self::Http2),
+            _ => None,
         }
+    }
+}
+
+impl From<::http::Version> for HttpProtocol {
+    /// # Panics
+    /// Panics for versions which have no supported protocol. Use [`HttpProtocol::from_version`]
+    /// for versions which come from a request.
+    fn from(version: ::http::Version) -> Self {
+        Self::from_version(version).expect("Unsupported HTTP protocol")
     }
 }
 
